@@ -220,7 +220,7 @@ class BaseInfoLine(MatchLine):
 
     out_pattern = "info({Attribute},{Value})."
 
-    pattern = re.compile(r"info\((?P<Attribute>[^,]+),(?P<Value>.+)\)\.")
+    pattern = re.compile(r"info\((?P<Attribute>[^,]+),(?P<Value>.*)\)\.")
 
     def __init__(
         self,
